@@ -1,7 +1,7 @@
 (* Proofs about the map-level YAML layer of Model/ConfigMerge.v: what comes back when the
    document written by MarshalYAML is read again by UnmarshalYAML. *)
 From Coq Require Import Lia.
-From Regal Require Import Base.Str Model.ConfigMerge Proofs.ConfigMerge.
+From Regal Require Import Base.Str Model.ConfigMerge Gen.ProvidedConfig Proofs.ConfigMerge.
 Local Open Scope N_scope.
 
 (* ---------------- association lists, continued ---------------- *)
@@ -528,4 +528,474 @@ Proof.
   split; [vm_compute; reflexivity|].
   split; [vm_compute; reflexivity|].
   vm_compute. discriminate.
+Qed.
+
+(* ---------------- what UnmarshalYAML returns is well-formed ---------------- *)
+
+Lemma str_in_adel {A} (m : list (str * A)) k k' :
+  str_in k' (keys (adel m k)) = if str_eqb k k' then false else str_in k' (keys m).
+Proof.
+  induction m as [|[k0 v0] m IH]; [cbn; destruct (str_eqb k k'); reflexivity|].
+  cbn [adel]. change (keys ((k0, v0) :: m)) with (k0 :: keys m). cbn [str_in].
+  destruct (str_eqb_spec k0 k) as [->|Hne].
+  - rewrite IH. destruct (str_eqb_spec k k') as [->|Hne'].
+    + reflexivity.
+    + rewrite (str_eqb_sym k' k). destruct (str_eqb_spec k k'); [contradiction | reflexivity].
+  - change (keys ((k0, v0) :: adel m k)) with (k0 :: keys (adel m k)). cbn [str_in]. rewrite IH.
+    destruct (str_eqb_spec k k') as [->|Hne'].
+    + rewrite (str_eqb_sym k' k0). destruct (str_eqb_spec k0 k'); [contradiction | reflexivity].
+    + reflexivity.
+Qed.
+
+Lemma distinct_adel {A} (m : list (str * A)) k : distinct (keys m) = true -> distinct (keys (adel m k)) = true.
+Proof.
+  induction m as [|[k0 v0] m IH]; [reflexivity|]. intros Hd.
+  change (distinct (k0 :: keys m) = true) in Hd. cbn [distinct] in Hd.
+  apply andb_true_iff in Hd. destruct Hd as [Hn Hd]. cbn [adel].
+  destruct (str_eqb k0 k); [apply IH; assumption|].
+  change (distinct (k0 :: keys (adel m k)) = true). cbn [distinct].
+  rewrite (IH Hd), andb_true_r. rewrite str_in_adel.
+  destruct (str_eqb k k0); [reflexivity | exact Hn].
+Qed.
+
+Lemma rule_of_wf j r : rule_doc_wf j = true -> rule_of j = Ok r -> rule_wf r = true.
+Proof.
+  destruct j as [| | | | |m]; try discriminate. cbn [rule_doc_wf rule_of]. intros Hd H.
+  assert (E : r_extra r = adel (adel m LEVEL) IGNORE).
+  { destruct (aget m IGNORE) as [[| | | | |im]|]; cbn [bind] in H; try discriminate.
+    - injection H as <-. reflexivity.
+    - destruct (aget im FILES) as [[| | | |l|]|]; cbn [bind] in H; try discriminate;
+        try (injection H as <-; reflexivity).
+      destruct (strs_of l); cbn [bind] in H; [injection H as <-; reflexivity | discriminate].
+    - injection H as <-. reflexivity. }
+  unfold rule_wf. rewrite E.
+  rewrite (distinct_adel _ IGNORE (distinct_adel _ LEVEL Hd)).
+  rewrite !str_in_adel. rewrite str_eqb_refl.
+  assert (E1 : str_eqb IGNORE LEVEL = false) by reflexivity. rewrite E1, str_eqb_refl. reflexivity.
+Qed.
+
+Lemma map_result_keys {A B} (f : str * A -> result (str * B)) (l : list (str * A)) r :
+  (forall x y, f x = Ok y -> fst y = fst x) ->
+  map_result f l = Ok r -> keys r = keys l.
+Proof.
+  intros Hf. revert r. induction l as [|x l IH]; intros r H.
+  - cbn in H. injection H as <-. reflexivity.
+  - cbn [map_result] in H. destruct (f x) as [y|e] eqn:Ex; [|discriminate]. cbn [bind] in H.
+    destruct (map_result f l) as [ys|e]; [|discriminate]. cbn [bind] in H. injection H as <-.
+    change (fst y :: keys ys = fst x :: keys l). rewrite (Hf _ _ Ex), (IH ys eq_refl). reflexivity.
+Qed.
+
+Lemma map_result_forall {A B} (f : A -> result B) (P : A -> Prop) (Q : B -> Prop) (l : list A) r :
+  (forall x y, P x -> f x = Ok y -> Q y) ->
+  Forall P l -> map_result f l = Ok r -> Forall Q r.
+Proof.
+  intros Hf HP. revert r. induction HP as [|x l Hx Hl IH]; intros r H.
+  - cbn in H. injection H as <-. constructor.
+  - cbn [map_result] in H. destruct (f x) as [y|e] eqn:Ex; [|discriminate]. cbn [bind] in H.
+    destruct (map_result f l) as [ys|e]; [|discriminate]. cbn [bind] in H. injection H as <-.
+    constructor; [exact (Hf _ _ Hx Ex) | exact (IH ys eq_refl)].
+Qed.
+
+Lemma keys_filter_ne {A} (m : list (str * A)) k :
+  keys (filter (fun kv => negb (str_eqb (fst kv) k)) m) = filter (fun x => negb (str_eqb x k)) (keys m).
+Proof.
+  induction m as [|[k0 v0] m IH]; [reflexivity|]. cbn [filter fst].
+  change (keys ((k0, v0) :: m)) with (k0 :: keys m). cbn [filter].
+  destruct (str_eqb k0 k); cbn [negb]; [exact IH|].
+  change (keys ((k0, v0) :: filter (fun kv : str * A => negb (str_eqb (fst kv) k)) m))
+    with (k0 :: keys (filter (fun kv : str * A => negb (str_eqb (fst kv) k)) m)).
+  rewrite IH. reflexivity.
+Qed.
+
+Lemma str_in_filter_ne ks k k' :
+  str_in k' (filter (fun x => negb (str_eqb x k)) ks) = if str_eqb k k' then false else str_in k' ks.
+Proof.
+  induction ks as [|x ks IH]; [cbn; destruct (str_eqb k k'); reflexivity|].
+  cbn [filter str_in]. destruct (str_eqb_spec x k) as [->|Hne]; cbn [negb].
+  - rewrite IH. destruct (str_eqb_spec k k') as [->|Hne'].
+    + reflexivity.
+    + rewrite (str_eqb_sym k' k). destruct (str_eqb_spec k k'); [contradiction | reflexivity].
+  - cbn [str_in]. rewrite IH. destruct (str_eqb_spec k k') as [->|Hne'].
+    + rewrite (str_eqb_sym k' x). destruct (str_eqb_spec x k'); [contradiction | reflexivity].
+    + reflexivity.
+Qed.
+
+Lemma distinct_filter_ne ks k : distinct ks = true -> distinct (filter (fun x => negb (str_eqb x k)) ks) = true.
+Proof.
+  induction ks as [|x ks IH]; [reflexivity|]. intros Hd. cbn [distinct] in Hd.
+  apply andb_true_iff in Hd. destruct Hd as [Hn Hd]. cbn [filter].
+  destruct (str_eqb x k) eqn:E; cbn [negb]; [apply IH; assumption|].
+  cbn [distinct]. rewrite (IH Hd), andb_true_r. rewrite str_in_filter_ne.
+  rewrite (str_eqb_sym k x), E. exact Hn.
+Qed.
+
+(* one category *)
+Lemma category_of_wf rm rs :
+  distinct (keys rm) = true -> forallb (fun nr => rule_doc_wf (snd nr)) rm = true ->
+  map_result (fun nr : str * jval => bind (rule_of (snd nr)) (fun r => Ok (fst nr, r)))
+             (filter (fun nr => negb (str_eqb (fst nr) DEFAULT)) rm) = Ok rs ->
+  distinct (keys rs) = true /\ str_in DEFAULT (keys rs) = false /\
+  forallb (fun nr => rule_wf (snd nr)) rs = true.
+Proof.
+  intros Hd Hw H.
+  assert (K : keys rs = filter (fun x => negb (str_eqb x DEFAULT)) (keys rm)).
+  { rewrite <- keys_filter_ne. eapply map_result_keys; [|exact H].
+    intros x y E. cbv beta in E. destruct (rule_of (snd x)); cbn [bind] in E; [injection E as <-; reflexivity | discriminate]. }
+  repeat split.
+  - rewrite K. apply distinct_filter_ne. exact Hd.
+  - rewrite K, str_in_filter_ne, str_eqb_refl. reflexivity.
+  - apply forallb_forall. apply Forall_forall.
+    eapply (map_result_forall _ (fun nr => rule_doc_wf (snd nr) = true) (fun nr => rule_wf (snd nr) = true)); [| |exact H].
+    + intros x y Px E. cbv beta in E. destruct (rule_of (snd x)) as [r|] eqn:Er; cbn [bind] in E; [|discriminate].
+      injection E as <-. cbn [snd]. eapply rule_of_wf; eassumption.
+    + apply Forall_forall. intros x Hx. apply filter_In in Hx. destruct Hx as [Hx _].
+      rewrite forallb_forall in Hw. exact (Hw _ Hx).
+Qed.
+
+Lemma rules_of_wf rules rs :
+  distinct (keys rules) = true -> forallb (fun kv => cat_doc_wf (snd kv)) rules = true ->
+  rules_of rules = Ok rs ->
+  keys rs = filter (fun x => negb (str_eqb x DEFAULT)) (keys rules) /\
+  rules_wf rs = true /\
+  forallb (fun cr => negb (str_in DEFAULT (keys (snd cr)))) rs = true.
+Proof.
+  intros Hd Hw H. unfold rules_of in H.
+  set (F := fun kv : str * jval => match snd kv with
+                                   | JObj rm => bind (map_result (fun nr : str * jval => bind (rule_of (snd nr)) (fun r => Ok (fst nr, r)))
+                                                                 (filter (fun nr => negb (str_eqb (fst nr) DEFAULT)) rm))
+                                                     (fun rs0 => Ok (fst kv, rs0))
+                                   | _ => Err ENotAMap end) in H.
+  assert (K : keys rs = filter (fun x => negb (str_eqb x DEFAULT)) (keys rules)).
+  { rewrite <- keys_filter_ne. eapply map_result_keys; [|exact H].
+    intros x y E. unfold F in E. destruct (snd x); try discriminate.
+    match type of E with bind ?x _ = _ => destruct x end; cbn [bind] in E; [injection E as <-; reflexivity | discriminate]. }
+  assert (G : Forall (fun cr : str * category =>
+                        distinct (keys (snd cr)) = true /\ str_in DEFAULT (keys (snd cr)) = false /\
+                        forallb (fun nr => rule_wf (snd nr)) (snd cr) = true) rs).
+  { eapply (map_result_forall F (fun kv => cat_doc_wf (snd kv) = true)); [| |exact H].
+    - intros x y Px E. unfold F in E. destruct (snd x) as [| | | | |rm] eqn:Es; try discriminate.
+      match type of E with bind ?x _ = _ => destruct x as [rs0|] eqn:Em end; cbn [bind] in E; [|discriminate]. injection E as <-. cbn [snd].
+      cbn [cat_doc_wf] in Px. apply andb_true_iff in Px. destruct Px as [P1 P2].
+      eapply category_of_wf; eassumption.
+    - apply Forall_forall. intros x Hx. apply filter_In in Hx. destruct Hx as [Hx _].
+      rewrite forallb_forall in Hw. exact (Hw _ Hx). }
+  split; [exact K|]. split.
+  - unfold rules_wf. rewrite K, (distinct_filter_ne _ DEFAULT Hd). cbn [andb].
+    apply forallb_forall. intros cr Hi. rewrite Forall_forall in G. destruct (G _ Hi) as (G1 & _ & G3).
+    apply andb_true_iff. split; assumption.
+  - apply forallb_forall. intros cr Hi. rewrite Forall_forall in G. destruct (G _ Hi) as (_ & G2 & _).
+    apply negb_true_iff. exact G2.
+Qed.
+
+(* the category defaults *)
+Lemma defaults_of_wf rules ds :
+  rules_doc_wf rules = true -> defaults_of rules = Ok ds ->
+  distinct (keys (d_cats ds)) = true /\
+  forallb (fun cl => str_in (fst cl) (filter (fun x => negb (str_eqb x DEFAULT)) (keys rules))) (d_cats ds) = true.
+Proof.
+  unfold rules_doc_wf. intros Hw H. apply andb_true_iff in Hw. destruct Hw as [Hw Hdd].
+  apply andb_true_iff in Hw. destruct Hw as [Hd _].
+  unfold defaults_of in H.
+  destruct (match aget rules DEFAULT with Some j => default_level j | None => Ok [] end) as [g|]; [|discriminate].
+  cbn [bind] in H.
+  set (F := fun kv : str * jval => match snd kv with
+             | JObj rm => match aget rm DEFAULT with
+                          | Some dj => bind (default_level dj) (fun l => Ok [(fst kv, l)])
+                          | None => Ok []
+                          end
+             | _ => Err ENotAMap end) in H.
+  destruct (map_result F rules) as [cs|] eqn:Em; [|discriminate]. cbn [bind] in H. injection H as <-. cbn [d_cats].
+  (* every produced entry is keyed by a key of [rules] whose value has a "default" entry *)
+  assert (G : forall sub cs', (forall x, In x sub -> In x rules) -> distinct (keys sub) = true ->
+              map_result F sub = Ok cs' ->
+              distinct (keys (concat cs')) = true /\
+              (forall k, str_in k (keys (concat cs')) = true ->
+                 str_in k (keys sub) = true /\ exists rm, aget rules k = Some (JObj rm) /\ aget rm DEFAULT <> None)).
+  { induction sub as [|[k0 v0] sub IH]; intros cs' Hsub Hds Hm.
+    - cbn in Hm. injection Hm as <-. split; [reflexivity | intros k Hk; discriminate].
+    - cbn [map_result] in Hm. destruct (F (k0, v0)) as [c|] eqn:Ef; [|discriminate]. cbn [bind] in Hm.
+      destruct (map_result F sub) as [cs''|] eqn:Em'; [|discriminate]. cbn [bind] in Hm. injection Hm as <-.
+      change (distinct (k0 :: keys sub) = true) in Hds. cbn [distinct] in Hds.
+      apply andb_true_iff in Hds. destruct Hds as [Hn Hds].
+      destruct (IH cs'' (fun x Hx => Hsub x (or_intror Hx)) Hds eq_refl) as (I1 & I2).
+      cbn [concat]. unfold F in Ef. cbn [snd fst] in Ef.
+      destruct v0 as [| | | | |rm]; try discriminate.
+      destruct (aget rm DEFAULT) as [dj|] eqn:Ed.
+      + destruct (default_level dj) as [l|]; cbn [bind] in Ef; [|discriminate]. injection Ef as <-.
+        cbn [app]. change (keys ((k0, l) :: concat cs'')) with (k0 :: keys (concat cs'')). split.
+        * cbn [distinct]. rewrite I1, andb_true_r. apply negb_true_iff.
+          destruct (str_in k0 (keys (concat cs''))) eqn:E; [|reflexivity].
+          destruct (I2 _ E) as (E' & _). apply negb_true_iff in Hn. congruence.
+        * intros k Hk. cbn [str_in] in Hk. change (keys ((k0, JObj rm) :: sub)) with (k0 :: keys sub). cbn [str_in].
+          destruct (str_eqb_spec k k0) as [Ek|Hne].
+          -- subst k0. split; [reflexivity|]. exists rm. split; [|congruence].
+             apply aget_in; [exact Hd | apply Hsub; left; reflexivity].
+          -- cbn [orb] in Hk. destruct (I2 _ Hk) as (E1 & E2). split; [exact E1 | exact E2].
+      + injection Ef as <-. cbn [app]. split; [exact I1|].
+        intros k Hk. destruct (I2 _ Hk) as (E1 & E2). split; [|exact E2].
+        change (keys ((k0, JObj rm) :: sub)) with (k0 :: keys sub). cbn [str_in]. rewrite E1. apply orb_true_r. }
+  destruct (G rules cs (fun x Hx => Hx) Hd Em) as (G1 & G2).
+  split; [exact G1|].
+  apply forallb_forall. intros [k l] Hi. cbn [fst].
+  assert (Hk : str_in k (keys (concat cs)) = true).
+  { clear -Hi. induction (concat cs) as [|[k1 l1] m IH]; [destruct Hi|].
+    change (keys ((k1, l1) :: m)) with (k1 :: keys m). cbn [str_in]. destruct Hi as [E|Hi].
+    - injection E as -> ->. rewrite str_eqb_refl. reflexivity.
+    - rewrite (IH Hi). apply orb_true_r. }
+  destruct (G2 _ Hk) as (E1 & rm & E2 & E3).
+  rewrite str_in_filter_ne, E1.
+  destruct (str_eqb_spec DEFAULT k) as [<-|]; [|reflexivity].
+  (* the key is "default": excluded, its object has no "default" entry *)
+  exfalso. rewrite E2 in Hdd. apply negb_true_iff in Hdd. apply aget_none_notin in Hdd. contradiction.
+Qed.
+
+Theorem unmarshal_wf lookup abs dash doc c :
+  doc_wf doc = true -> unmarshal lookup abs dash doc = Ok c -> roundtrip_wf c = true.
+Proof.
+  intros Hw H. destruct doc as [| | | | |top]; try discriminate. cbn [doc_wf] in Hw. unfold unmarshal in H.
+  set (rules := match aget top RULES with
+                | None | Some JNull => Ok [] | Some (JObj m) => Ok m | Some _ => Err EDecode end) in H.
+  assert (R : exists m, rules = Ok m /\ rules_doc_wf m = true \/ exists e, rules = Err e).
+  { unfold rules. destruct (aget top RULES) as [[| | | | |m]|]; try (exists []; right; eexists; reflexivity);
+      try (exists []; left; split; reflexivity).
+    exists m. left. split; [reflexivity | exact Hw]. }
+  destruct R as (m & [[Er Hm]|[e Er]]); rewrite Er in H; cbn [bind] in H; [|discriminate].
+  destruct (project_of (aget top PROJECT)) as [proj|]; cbn [bind] in H; [|discriminate].
+  match type of H with bind ?x _ = _ => destruct x as [ign|] end; cbn [bind] in H; [|discriminate].
+  destruct (defaults_of m) as [ds|] eqn:Ed; cbn [bind] in H; [|discriminate].
+  destruct (rules_of m) as [rs|] eqn:Ers; cbn [bind] in H; [|discriminate].
+  match type of H with bind ?x _ = _ => destruct x as [url|] end; cbn [bind] in H; [|discriminate].
+  destruct (lookup url) as [base|]; [|discriminate].
+  injection H as <-.
+  pose proof Hm as Hm'. unfold rules_doc_wf in Hm'. apply andb_true_iff in Hm'. destruct Hm' as [Hm' _].
+  apply andb_true_iff in Hm'. destruct Hm' as [Hdk Hcw].
+  destruct (rules_of_wf m rs Hdk Hcw Ers) as (K & W1 & W2).
+  destruct (defaults_of_wf m ds Hm Ed) as (D1 & D2).
+  unfold roundtrip_wf, config_wf. cbn [c_rules c_defaults].
+  rewrite W1, D1, W2. rewrite K, str_in_filter_ne, str_eqb_refl. cbn [negb andb]. exact D2.
+Qed.
+
+(* ---------------- what LoadConfigWithDefaultsFromBundle returns is well-formed ---------------- *)
+
+Lemma keys_aset {A} (m : list (str * A)) k v :
+  keys (aset m k v) = if str_in k (keys m) then keys m else keys m ++ [k].
+Proof.
+  induction m as [|[k0 v0] m IH]; [reflexivity|].
+  cbn [aset]. change (keys ((k0, v0) :: m)) with (k0 :: keys m). cbn [str_in].
+  rewrite (str_eqb_sym k k0). destruct (str_eqb_spec k0 k) as [->|Hne]; cbn [orb].
+  - reflexivity.
+  - change (keys ((k0, v0) :: aset m k v)) with (k0 :: keys (aset m k v)). rewrite IH.
+    destruct (str_in k (keys m)); reflexivity.
+Qed.
+
+Lemma distinct_snoc ks k : distinct ks = true -> str_in k ks = false -> distinct (ks ++ [k]) = true.
+Proof.
+  induction ks as [|x ks IH]; intros Hd Hn; [reflexivity|].
+  cbn [distinct app] in *. apply andb_true_iff in Hd. destruct Hd as [H1 H2].
+  cbn [str_in] in Hn. apply orb_false_iff in Hn. destruct Hn as [N1 N2].
+  rewrite (IH H2 N2), andb_true_r. rewrite str_in_app. cbn [str_in].
+  apply negb_true_iff in H1. rewrite H1. cbn [orb]. rewrite (str_eqb_sym x k), N1. reflexivity.
+Qed.
+
+Lemma distinct_aset {A} (m : list (str * A)) k v : distinct (keys m) = true -> distinct (keys (aset m k v)) = true.
+Proof.
+  intros Hd. rewrite keys_aset. destruct (str_in k (keys m)) eqn:E; [exact Hd | apply distinct_snoc; assumption].
+Qed.
+
+Lemma str_in_aset {A} (m : list (str * A)) k v k' :
+  str_in k' (keys (aset m k v)) = str_eqb k' k || str_in k' (keys m).
+Proof.
+  rewrite keys_aset. destruct (str_in k (keys m)) eqn:E.
+  - destruct (str_eqb_spec k' k) as [->|]; [rewrite E; reflexivity | reflexivity].
+  - rewrite str_in_app. cbn [str_in]. rewrite orb_false_r, orb_comm. reflexivity.
+Qed.
+
+Lemma distinct_acopy {A} (src dst : list (str * A)) : distinct (keys dst) = true -> distinct (keys (acopy dst src)) = true.
+Proof.
+  unfold acopy. revert dst. induction src as [|[k v] src IH]; intros dst Hd; [exact Hd|].
+  cbn [fold_left fst snd]. apply IH. apply distinct_aset. exact Hd.
+Qed.
+
+Lemma str_in_acopy {A} (src dst : list (str * A)) k :
+  str_in k (keys (acopy dst src)) = str_in k (keys dst) || str_in k (keys src).
+Proof.
+  unfold acopy. revert dst. induction src as [|[k0 v] src IH]; intros dst.
+  - cbn. rewrite orb_false_r. reflexivity.
+  - cbn [fold_left fst snd]. rewrite IH, str_in_aset. change (keys ((k0, v) :: src)) with (k0 :: keys src).
+    cbn [str_in]. destruct (str_eqb k k0), (str_in k (keys dst)); cbn [orb]; rewrite ?orb_true_r; reflexivity.
+Qed.
+
+Lemma distinct_merge_rules src : forall dst, distinct (keys dst) = true -> distinct (keys (merge_rules dst src)) = true.
+Proof.
+  unfold merge_rules, category. induction src as [|[k v] src IH]; intros dst Hd; [exact Hd|].
+  cbn [fold_left fst snd]. apply IH. destruct (aget dst k); apply distinct_aset; exact Hd.
+Qed.
+
+Lemma str_in_merge_rules src : forall dst k,
+  str_in k (keys (merge_rules dst src)) = str_in k (keys dst) || str_in k (keys src).
+Proof.
+  unfold merge_rules, category. induction src as [|[k0 v] src IH]; intros dst k.
+  - cbn. rewrite orb_false_r. reflexivity.
+  - cbn [fold_left fst snd]. rewrite IH. change (keys ((k0, v) :: src)) with (k0 :: keys src). cbn [str_in].
+    destruct (aget dst k0); rewrite str_in_aset;
+      destruct (str_eqb k k0), (str_in k (keys dst)); cbn [orb]; rewrite ?orb_true_r; reflexivity.
+Qed.
+
+Lemma keys_map_rules f rs : keys (map_rules f rs) = keys rs.
+Proof. unfold map_rules, keys. rewrite map_map. reflexivity. Qed.
+
+Lemma in_map_rules f rs cat c' :
+  In (cat, c') (map_rules f rs) ->
+  exists c, In (cat, c) rs /\ c' = map (fun nr => (fst nr, f cat (fst nr) (snd nr))) c.
+Proof.
+  unfold map_rules. intros H. apply in_map_iff in H. destruct H as ([k c] & E & Hi).
+  cbn [fst snd] in E. injection E as -> <-. exists c. split; [exact Hi | reflexivity].
+Qed.
+
+Lemma forallb_aget {A} (P : str * A -> bool) (m : list (str * A)) :
+  (forall k v, aget m k = Some v -> P (k, v) = true) -> distinct (keys m) = true -> forallb P m = true.
+Proof.
+  intros H Hd. apply forallb_forall. intros [k v] Hi. apply H. apply aget_in; assumption.
+Qed.
+
+Lemma in_of_aget {A} (m : list (str * A)) k v : aget m k = Some v -> In (k, v) m.
+Proof.
+  induction m as [|[k0 v0] m IH]; simpl; [discriminate|].
+  destruct (str_eqb_spec k0 k) as [->|]; [intros [= ->]; left; reflexivity | right; auto].
+Qed.
+
+Record cat_ok (c : category) : Prop := {
+  co_distinct : distinct (keys c) = true;
+  co_nodefault : str_in DEFAULT (keys c) = false;
+  co_rules : forall name r, In (name, r) c -> rule_wf r = true }.
+
+Lemma cats_ok_of c : roundtrip_wf c = true -> forall cat rs, In (cat, rs) (c_rules c) -> cat_ok rs.
+Proof.
+  intros H cat rs Hi. pose proof (rt_wf_of c H) as W.
+  destruct (w_rules c W cat rs Hi) as [H1 H2].
+  unfold roundtrip_wf, config_wf, rules_wf in H.
+  apply andb_true_iff in H. destruct H as [H _].
+  apply andb_true_iff in H. destruct H as [H _].
+  apply andb_true_iff in H. destruct H as [H _].
+  apply andb_true_iff in H. destruct H as [H _].
+  apply andb_true_iff in H. destruct H as [_ Hrw].
+  rewrite forallb_forall in Hrw. specialize (Hrw _ Hi). cbn [snd] in Hrw. apply andb_true_iff in Hrw.
+  constructor; [tauto | exact H1 |].
+  intros name r Hr. rewrite forallb_forall in H2. exact (H2 _ Hr).
+Qed.
+
+Lemma complete_rule_wf p r : rule_wf p = true -> rule_wf r = true -> rule_wf (complete_rule p r) = true.
+Proof.
+  unfold rule_wf. intros Hp Hr.
+  apply andb_true_iff in Hp. destruct Hp as [Hp P3]. apply andb_true_iff in Hp. destruct Hp as [P1 P2].
+  apply andb_true_iff in Hr. destruct Hr as [Hr R3]. apply andb_true_iff in Hr. destruct Hr as [R1 R2].
+  cbn [complete_rule r_extra]. rewrite (distinct_acopy _ _ P1), !str_in_acopy.
+  apply negb_true_iff in P2, P3, R2, R3. rewrite P2, P3, R2, R3. reflexivity.
+Qed.
+
+Lemma cat_ok_acopy d s : cat_ok d -> cat_ok s -> cat_ok (merge_struct_map d s).
+Proof.
+  intros [D1 D2 D3] [S1 S2 S3]. unfold merge_struct_map. constructor.
+  - apply distinct_acopy. exact D1.
+  - rewrite str_in_acopy, D2, S2. reflexivity.
+  - intros name r Hi.
+    assert (Hg : aget (acopy d s) name = Some r) by (apply aget_in; [apply distinct_acopy; exact D1 | exact Hi]).
+    rewrite aget_acopy in Hg by exact S1.
+    destruct (aget s name) as [r'|] eqn:E.
+    + injection Hg as <-. apply (S3 name). apply in_of_aget. exact E.
+    + apply (D3 name). apply in_of_aget. exact Hg.
+Qed.
+
+Theorem load_wf (p u : config) (dcaps : caps) :
+  provided_plain p -> roundtrip_wf p = true -> roundtrip_wf u = true ->
+  roundtrip_wf (load p (Some u) dcaps) = true.
+Proof.
+  intros Hpp Hp Hu.
+  pose proof (rt_wf_of p Hp) as Wp. pose proof (rt_wf_of u Hu) as Wu.
+  pose proof (cats_ok_of p Hp) as Cp. pose proof (cats_ok_of u Hu) as Cu.
+  set (M0 := merge_rules (c_rules p) (c_rules u)).
+  assert (D0 : distinct (keys M0) = true) by (apply distinct_merge_rules; exact (w_cats p Wp)).
+  assert (C0 : forall cat c, In (cat, c) M0 -> cat_ok c).
+  { intros cat c Hi. assert (Hg : aget M0 cat = Some c) by (apply aget_in; assumption).
+    unfold M0 in Hg. rewrite merge_rules_get in Hg by exact (w_cats u Wu).
+    destruct (aget (c_rules u) cat) as [scat|] eqn:Es.
+    - injection Hg as <-. destruct (aget (c_rules p) cat) as [dcat|] eqn:Ed.
+      + apply cat_ok_acopy; [apply (Cp cat) | apply (Cu cat)]; apply in_of_aget; assumption.
+      + apply (Cu cat). apply in_of_aget. exact Es.
+    - apply (Cp cat). apply in_of_aget. exact Hg. }
+  (* the two passes over the rules keep keys and well-formedness *)
+  assert (PASS : forall f rs, (forall cat name r, rule_wf r = true -> rule_wf (f cat name r) = true) ->
+                 distinct (keys rs) = true -> (forall cat c, In (cat, c) rs -> cat_ok c) ->
+                 distinct (keys (map_rules f rs)) = true /\ (forall cat c, In (cat, c) (map_rules f rs) -> cat_ok c)).
+  { intros f rs Hf Hd Hc. split; [rewrite keys_map_rules; exact Hd|].
+    intros cat c' Hi. destruct (in_map_rules _ _ _ _ Hi) as (c & Hic & ->).
+    destruct (Hc cat c Hic) as [O1 O2 O3].
+    assert (K : keys (map (fun nr : str * rule => (fst nr, f cat (fst nr) (snd nr))) c) = keys c)
+      by (unfold keys; rewrite map_map; reflexivity).
+    constructor; [rewrite K; exact O1 | rewrite K; exact O2 |].
+    intros name r Hr. apply in_map_iff in Hr. destruct Hr as ([n0 r0] & E & Hr0). cbn [fst snd] in E.
+    injection E as -> <-. apply Hf. exact (O3 _ _ Hr0). }
+  set (f1 := fun cat name r => match get_rule p cat name with
+                               | Some pr => if in_user u cat name then complete_rule pr r else r
+                               | None => r end).
+  assert (F1 : forall cat name r, rule_wf r = true -> rule_wf (f1 cat name r) = true).
+  { intros cat name r Hr. unfold f1. destruct (get_rule p cat name) as [pr|] eqn:Ep; [|exact Hr].
+    destruct (in_user u cat name); [|exact Hr]. apply complete_rule_wf; [|exact Hr].
+    destruct (get_rule_in _ _ _ _ Ep) as (rs & I1 & I2).
+    exact (co_rules _ (Cp cat rs I1) name pr I2). }
+  destruct (PASS f1 M0 F1 D0 C0) as (D1 & C1).
+  set (M1 := map_rules f1 M0) in *.
+  set (pm := with_default_caps dcaps (restore_options p u (merge_config p u))).
+  set (f2 := fun cat name r =>
+               let pl := match aget (provided_levels p) name with Some l => l | None => ERROR end in
+               {| r_level := select_level u pm cat name pl; r_ignore := r_ignore r; r_extra := r_extra r |}).
+  assert (F2 : forall cat name r, rule_wf r = true -> rule_wf (f2 cat name r) = true)
+    by (intros cat name r Hr; exact Hr).
+  destruct (PASS f2 M1 F2 D1 C1) as (D2 & C2).
+  (* assemble *)
+  assert (ER : c_rules (load p (Some u) dcaps) = map_rules f2 M1) by reflexivity.
+  assert (ED : d_cats (c_defaults (load p (Some u) dcaps)) = acopy [] (d_cats (c_defaults u))).
+  { destruct Hpp as [Hd _]. cbn. rewrite Hd. reflexivity. }
+  unfold roundtrip_wf, config_wf, rules_wf. rewrite ER, ED.
+  assert (KM : forall k, str_in k (keys (map_rules f2 M1)) = str_in k (keys (c_rules p)) || str_in k (keys (c_rules u))).
+  { intros k. rewrite keys_map_rules. unfold M1. rewrite keys_map_rules. apply str_in_merge_rules. }
+  repeat (apply andb_true_iff; split).
+  - exact D2.
+  - apply forallb_forall. intros [cat c] Hi. destruct (C2 cat c Hi) as [O1 O2 O3]. cbn [snd].
+    apply andb_true_iff. split; [exact O1|]. apply forallb_forall. intros [n r] Hr. exact (O3 n r Hr).
+  - apply (distinct_acopy _ [] eq_refl).
+  - rewrite KM, (w_nodef p Wp), (w_nodef u Wu). reflexivity.
+  - apply forallb_forall. intros [cat c] Hi. destruct (C2 cat c Hi) as [_ O2 _]. cbn [snd]. rewrite O2. reflexivity.
+  - apply forallb_forall. intros [k l] Hi. cbn [fst]. rewrite KM.
+    assert (Hk : str_in k (keys (d_cats (c_defaults u))) = true).
+    { apply in_keys in Hi. rewrite str_in_acopy in Hi. exact Hi. }
+    destruct (str_in_keys_aget _ _ Hk) as (l' & Hl). rewrite (w_sub u Wu k l' (in_of_aget _ _ _ Hl)). apply orb_true_r.
+Qed.
+
+(* ---------------- the round trip of configurations that were actually loaded ---------------- *)
+
+Lemma provided_config_roundtrip_wf : roundtrip_wf provided_config = true.
+Proof. vm_compute. reflexivity. Qed.
+
+Theorem yaml_roundtrip_loaded
+  (lookup : str -> option caps) (abs : str -> str) (base : caps) :
+  lookup DEFAULT_CAPS_URL = Some base ->
+  forall doc u dcaps c,
+  doc_wf doc = true -> unmarshal lookup abs true doc = Ok u ->
+  c = u \/ c = load provided_config (Some u) dcaps ->
+  exists j c',
+    marshal c = Some j /\ unmarshal lookup abs true j = Ok c' /\
+    c_rules c' = norm_rules (c_rules c) /\
+    d_global (c_defaults c') = d_global (c_defaults c) /\
+    (forall cat, aget (d_cats (c_defaults c')) cat = aget (d_cats (c_defaults c)) cat) /\
+    c_ignore c' = c_ignore c /\
+    c_project c' = c_project c /\
+    c_features c' = features_back (c_features c) /\
+    c_caps c' = Some base /\ c_caps_url c' = DEFAULT_CAPS_URL.
+Proof.
+  intros Hd doc u dcaps c Hw Hu Hc.
+  pose proof (unmarshal_wf lookup abs true doc u Hw Hu) as Wu.
+  apply (yaml_roundtrip_partial lookup abs base Hd).
+  destruct Hc as [->| ->]; [exact Wu|].
+  apply load_wf; [exact (proj1 provided_config_plain) | exact provided_config_roundtrip_wf | exact Wu].
 Qed.
